@@ -197,6 +197,11 @@ func (b Builder) getDefer(kind DoAction) *aDefer {
 		deferState.panicBlk = panicBlk
 
 		b.SetBlockEx(rethrowBlk, AtEnd, false) // rethrow
+		// A panic raised by the last deferred call to run arrives here straight
+		// from the panic block, without passing the end of the defer replay:
+		// unlink this frame here as well, or the thread keeps pointing at it
+		// after the function is gone.
+		b.Call(b.Pkg.rtFunc("SetThreadDefer"), link)
 		b.Call(b.Pkg.rtFunc("Rethrow"), link)
 		b.Jump(self.recov)
 
@@ -233,6 +238,7 @@ func (b Builder) getDeferInCurrentBlock() *aDefer {
 	deferState.panicBlk = panicBlk
 
 	b.SetBlockEx(rethrowBlk, AtEnd, false)
+	b.Call(b.Pkg.rtFunc("SetThreadDefer"), link)
 	b.Call(b.Pkg.rtFunc("Rethrow"), link)
 	b.Jump(self.recov)
 
